@@ -599,7 +599,8 @@ def calendars(rng, n, zones=None):
     for i in range(n):
         G = rng.choice([3600, 3600, 1800, 900])
         start = rng.choice(dst_starts) + timedelta(hours=rng.choice([0, 0, 6, 9]))
-        alap = rng.random() < 0.25
+        site = (i % 5 == 2)       # backward project whose first resource works default hours in a zone it inherits from its site
+        alap = rng.random() < 0.25 or site
         vac = []
         if rng.random() < 0.3:
             v0 = start.replace(hour=0) + timedelta(days=rng.randint(1, 6))
@@ -687,9 +688,15 @@ def calendars(rng, n, zones=None):
             if rng.random() < 0.2:
                 b0 = start.replace(hour=0, minute=0) + timedelta(days=rng.randint(1, 5), hours=rng.choice([9, 12, 23]))
                 bookings.append((b0, rng.choice([2, 4, 6, 24, 48, 168]) * 3600))
+            if site and k == 0:
+                hours, shift, parent, leaves, bookings = None, None, None, [], []
+                tz = tz or rng.choice(zones)
+            if tz and parent is None and (rng.random() < 0.4 or (site and k == 0)):
+                parent = p.add_res("z%d" % k, tz=tz)        # a site: nothing but the zone, which its people inherit
+                tz = None
             rs.append(p.add_res("r%d" % k, parent=parent, hours=hours, shift=shift, tz=tz, leaves=leaves, bookings=bookings))
         ts = []
-        endpin = start + timedelta(days=14)
+        endpin = start + timedelta(days=14, hours=rng.choice([0, 0, 3, 6, 22]))       # also at hours nobody works in project time
         for k in range(rng.randint(1, 4)):
             r = rng.choice(rs)
             effort = G * rng.randint(2, 30)
